@@ -289,8 +289,11 @@ pub fn gen_srv_case(rng: &mut Rng, profile: Profile, prop: &'static str) -> SrvC
         let w_drain = if profile == Profile::Capacity { 2 } else { 0 };
         let w_fault = if faults_enabled && !hostiles.is_empty() { 2 } else { 0 };
         let w_fork = if forks_left > 0 && sim.stream_fds() > 0 { 4 } else { 0 };
-        let weights = [w_poll, w_connect, w_send, w_recv, w_resp, w_respall, w_flush, w_hostile, w_setlimit, w_drain, w_fault, w_fork];
-        if weights.iter().sum::<usize>() == 0 {
+        // simulated time passes between steps in a quarter of the histories (slow clients, a slow
+        // application): seconds to days. Nothing in the properties depends on time.
+        let w_sleep = if (case.cap_c2s + case.cap_s2c) % 4 == 1 { 4 } else { 0 };
+        let weights = [w_poll, w_connect, w_send, w_recv, w_resp, w_respall, w_flush, w_hostile, w_setlimit, w_drain, w_fault, w_fork, w_sleep];
+        if weights[..12].iter().sum::<usize>() == 0 {
             break;
         }
         let step = match rng.weighted(&weights) {
@@ -433,6 +436,7 @@ pub fn gen_srv_case(rng: &mut Rng, profile: Profile, prop: &'static str) -> SrvC
                 forks_left -= 1;
                 SStep::Fork
             }
+            12 => SStep::Sleep(*rng.pick(&[1u64, 5, 11, 31, 61, 121, 601, 3_601, 86_401, 1_000_000])),
             _ => {
                 let c = *rng.pick(&hostiles);
                 match rng.below(4) {
@@ -735,14 +739,14 @@ impl Prop for C08 {
     fn needs_conformance(&self) -> bool {
         true
     }
-    fn gen(&self, rng: &mut Rng, _tier: Tier, _index: u64) -> J {
+    fn gen_inner(&self, rng: &mut Rng, _tier: Tier, _index: u64) -> J {
         if rng.chance(1, 6_000) {
             // one long-lived client, hundreds to tens of thousands of requests, late answers
             return crate::flood::gen_flood(rng);
         }
         gen_srv_case(rng, Profile::WellBehaved, "C08").to_json()
     }
-    fn exec(&self, case: &J, st: &mut Stats) -> Result<RunOut, String> {
+    fn exec_inner(&self, case: &J, st: &mut Stats) -> Result<RunOut, String> {
         if crate::flood::is_flood(case) {
             return crate::flood::exec_flood(case, "C08", st);
         }
@@ -799,7 +803,7 @@ impl Prop for C09 {
     fn needs_conformance(&self) -> bool {
         true
     }
-    fn gen(&self, rng: &mut Rng, _tier: Tier, _index: u64) -> J {
+    fn gen_inner(&self, rng: &mut Rng, _tier: Tier, _index: u64) -> J {
         if rng.chance(1, 6_000) {
             // "however late the application answers": tens of thousands of unanswered requests
             return crate::flood::gen_flood(rng);
@@ -810,7 +814,7 @@ impl Prop for C09 {
         }
         gen_srv_case(rng, Profile::Hostile, "C09").to_json()
     }
-    fn exec(&self, case: &J, st: &mut Stats) -> Result<RunOut, String> {
+    fn exec_inner(&self, case: &J, st: &mut Stats) -> Result<RunOut, String> {
         if crate::flood::is_flood(case) {
             return crate::flood::exec_flood(case, "C09", st);
         }
@@ -862,10 +866,10 @@ impl Prop for C07 {
     fn needs_conformance(&self) -> bool {
         true
     }
-    fn gen(&self, rng: &mut Rng, _tier: Tier, _index: u64) -> J {
+    fn gen_inner(&self, rng: &mut Rng, _tier: Tier, _index: u64) -> J {
         gen_srv_case(rng, Profile::Routing, "C07").to_json()
     }
-    fn exec(&self, case: &J, st: &mut Stats) -> Result<RunOut, String> {
+    fn exec_inner(&self, case: &J, st: &mut Stats) -> Result<RunOut, String> {
         let case = SrvCase::from_json(case)?;
         let out = exec_srv(&case, flags_for("C07", Profile::Routing), st, true);
         let p = &out.sim_probe;
@@ -910,14 +914,14 @@ impl Prop for C10 {
     fn needs_conformance(&self) -> bool {
         true
     }
-    fn gen(&self, rng: &mut Rng, _tier: Tier, _index: u64) -> J {
+    fn gen_inner(&self, rng: &mut Rng, _tier: Tier, _index: u64) -> J {
         if rng.chance(1, 8_000) {
             // capacity regained again and again: hundreds to tens of thousands of short-lived clients
             return crate::flood::gen_turnstile(rng);
         }
         gen_srv_case(rng, Profile::Capacity, "C10").to_json()
     }
-    fn exec(&self, case: &J, st: &mut Stats) -> Result<RunOut, String> {
+    fn exec_inner(&self, case: &J, st: &mut Stats) -> Result<RunOut, String> {
         if crate::flood::is_flood(case) {
             return crate::flood::exec_flood(case, "C10", st);
         }
@@ -1069,7 +1073,7 @@ impl Prop for C18 {
     fn needs_conformance(&self) -> bool {
         true
     }
-    fn gen(&self, rng: &mut Rng, _tier: Tier, index: u64) -> J {
+    fn gen_inner(&self, rng: &mut Rng, _tier: Tier, index: u64) -> J {
         if rng.chance(1, 6) {
             return full_house(rng).to_json();
         }
@@ -1091,7 +1095,7 @@ impl Prop for C18 {
         case.kill_at = Some(if index % 25 == 0 { usize::MAX } else { rng.below(n + 1) });
         case.to_json()
     }
-    fn exec(&self, case: &J, st: &mut Stats) -> Result<RunOut, String> {
+    fn exec_inner(&self, case: &J, st: &mut Stats) -> Result<RunOut, String> {
         let case = SrvCase::from_json(case)?;
         let mut sig = Sig::new();
         let mut nontrivial = false;
